@@ -41,11 +41,13 @@ META = {
                   'finish_constRO / constRO_of_finish (readonly / constant of a parameter derived from class + configuration + Parameter.finish: a constant parameter is read-only by construction), '
                   'change_refused_of_datatype + model_change_probe_ok with the new clause (a payload the described datainfo of a writable parameter excludes is refused and nothing is written), '
                   'and, for parameters whose datatype is a tree of the datatype model (Node/DescribeDT: ONE tree gives the datainfo of the report and the validation of requests; the instance '
-                  'datatype = copy of the class datatype + the limits of the configuration): derived_datainfo_equiv_partial (AcceptLaw PROVED from C03 rebuild_equiv for every well-formed tree with on-grid '
-                  'scaled limits: the client rebuilt from the exported datainfo answers every payload as the node does), cfg_limit_stored / instance_limit_from_cfg (a configured limit is stored as given), '
+                  'datatype = copy of the class datatype + the limits of the configuration): derived_datainfo_equiv_partial (AcceptLaw PROVED from C03 rebuild_equiv / rebuild_snaps for every well-formed tree whose '
+                  'scaled limits are on the grid, or off the grid with finite grid values over a GridStable carrier: the client rebuilt from the exported datainfo answers every payload as the node does), '
+                  'cfg_limit_stored / instance_limit_from_cfg (a configured limit is stored as given), configured_scaled_offgrid (a scaled limit the configuration sets OFF the grid: described as round(limit/scale), '
+                  'client = node on every payload - the repaired finding), '
                   'configured_scaled_described (a scaled limit set by the configuration on the grid: the integer the report states denotes exactly that limit, whichever side of the whole number the float '
                   'quotient limit/scale lands on, and client = node on every payload), described_datainfo_equiv_derived + model_change_probe_ok_derived (node level, no oracle assumption), '
-                  'derived_datainfo_equiv_fails (counterexample for off-grid configured limits: recorded finding).  '
+                  'derived_datainfo_equiv_statement (every well-formed tree, no condition) stays a statement: missing are GridStable for the carrier and finiteness of the limits\' grid values.  '
                   'Tied to secnode.py / params.py / modulebase.py / properties.py / dispatcher.py / datatypes.py by correspondence runs (model report = real report, the module property lists DERIVED from '
                   'class + configuration; model step = real step for every request of the sweep; datatype stream: instance datatype DERIVED from class datatype + configured limits, described datainfo DERIVED from the '
                   'instance datatype, verdicts of node datatype and rebuilt client datatype on the boundary catalogue DERIVED by the model) and report-vs-behaviour monitors on generated nodes and on the shipped configurations '
@@ -54,7 +56,7 @@ META = {
                   'expressible in the described tuple datainfo); the datatype layer is an oracle (C01-C03): emits_importable, '
                   'described_datainfo_equiv and command_datainfo_equiv are proved relative to explicit oracle laws (about the datatypes of the node) and the corresponding facts are tested '
                   'on the implementation with the real client datatypes (for described_datainfo_equiv the law is discharged for the model datatypes under LawfulFloatOps / CompatLaws of the float carrier, proved for Rat, '
-                  'assumed for binary64); recorded finding: a scaled limit the configuration puts off the grid (node and described datainfo differ on the payload one step outside the described range); property lists of ACCESSIBLES (description, group, visibility) are data taken from the real objects, '
+                  'assumed for binary64); repaired finding (fd5b705): a scaled limit the configuration puts off the grid - node and described datainfo differed on the payload one step outside the described range, they agree now; for off-grid limits the proof additionally needs GridStable (round((k*scale)/scale) = k: proved for Rat, assumed for binary64 with |k| < 2^51, re-tested by C03 in every run); property lists of ACCESSIBLES (description, group, visibility) are data taken from the real objects, '
                   'those of MODULES are derived by the model from the declared properties of the class, class-level values and the configuration; strict JSON: the wire text of the '
                   'real report must parse with Lean\'s JSON parser (the model has no serialiser).',
     'trusted': [
@@ -72,7 +74,8 @@ META = {
         'main-unit substitution ($) — the datainfo is taken after configuration',
         'json.dumps of the report (the text the real node produces is parsed in Lean; the model does not serialise)',
     ],
-    'assumptions': ['derived_datainfo_equiv_partial / configured_scaled_described: LawfulFloatOps + CompatLaws of the float carrier (C03), scaled limits on the grid (Exportable)',
+    'assumptions': ['derived_datainfo_equiv_partial / configured_scaled_described / configured_scaled_offgrid: LawfulFloatOps + CompatLaws of the float carrier (C03); scaled limits on the grid (Exportable), or '
+                    'GridStable + finite grid values of the limits (LimitsDescribable)',
                     'Node.WF: distinct module names, distinct wire names per module, predefined names used for their kind',
                     'model_change_probe_ok: NoForeignReadOnly (datatypes, hooks and drivers do not use the error class ReadOnly for their own refusals)',
                     'report_class_props: AutoDecls (the class declares implementation / interface_classes / features as exported properties under these names; '
